@@ -154,7 +154,7 @@ def cmdGenText : P String := do
 
 /-! ## the verdict -/
 
-/-- the class of input on which the generator used to fail before dfa0aa0 / a32447a / a04eec4 (evidence feature
+/-- the class of input on which the generator used to fail before 30ae85f / 764942c / 2a8a008 (evidence feature
     `risk=`: these stay covered as regression inputs and must now succeed like any other description):
     package name a Go keyword or `main`; `@IMPORTS@` in the interface documentation; the old substring tests
     (`json.RawMessage`, `fmt.Sprintf` anywhere in the emitted text, i.e. also in documentation and names)
